@@ -11,6 +11,7 @@ from vlib import ROOT, REPO, log
 ERR = {"short", "mac", "zstd", "unsupported", "len", "conv", "idmismatch", "notfound"}
 SIG_SWAP = "same-type-file-substitution-undetected"
 SIG_PACK = "pack-substitution-undetected-by-partial-reads"
+SIG_LATEST = "latest-skips-unreadable-snapshot-files"
 
 
 def hx(b):
@@ -102,7 +103,8 @@ def run(ctx):
         "empty blobs never reach process_data (the chunker emits no empty chunk, a serialised tree is never empty): the NonZeroU32::new(0) corner (blob_empty_compressed_corner) is unreachable from the public API",
         "passwords are opaque values compared byte for byte (two passwords are the same iff their UTF-8 bytes are equal); the listing order of key files does not matter for whether a password opens",
         "scrypt is fed exactly the password bytes (obligation kdf_fed_with_password_bytes, regenerated from keyfile.rs / repository.rs / commands/key.rs) — otherwise the ideal-KDF hypothesis would be about scrypt composed with that transformation",
-        "in-memory backend with bounds-checked partial reads (a short read is an error, as with the local backend's read_exact)",
+        "in-memory backend with bounds-checked partial reads (a short read is an error, as with the local backend's read_exact); the config file is stored under a fixed name (a new config replaces the old one, reads ignore the id) as with the local backend",
+        "loader oracle: with one index / snapshot file tampered, every consuming read path (get_all_snapshots, latest, by prefix, check, prune_plan, to_indexed_ids, to_indexed; handle with a config change in its history) fails (check: reports errors) or returns exactly the untampered result",
     ]
     if meta:
         cov["write_site_classes"] = meta["classes"]
@@ -111,6 +113,10 @@ def run(ctx):
         cov["kdf_password_argument"] = meta["kdf_password_argument"]
         cov["password_flow_unchanged"] = meta["password_flow"]
         cov["read_verifies_id"] = meta["read_verifies_id"]
+        cov["loader_reads_every_listed_file"] = meta["loader_reads_every_listed_file"]
+        cov["decrypt_backend_new_sites"] = meta["decrypt_backend_new_sites"]
+        cov["open_dbe_set_at"] = meta["open_dbe_set_at"]
+        cov["index_consumers"] = meta["index_consumers"]
     try:
         model = vlib.build_model("C04")
     except RuntimeError as e:
@@ -375,7 +381,7 @@ def run(ctx):
             for x in b.split()[2:]: bump("keys/" + x)
             if "o=ok" in b and "o=cred" in b: nontriv.add(a)
     # ---------------------------------------------------------------- F. end to end
-    ne = 6 if thorough else 2
+    ne = 8 if thorough else 3
     el = ["e2e %d %d %s" % (rng.randint(1, 10 ** 6), 24 if thorough else 6, ["d", "0", "5"][i % 3]) for i in range(ne)]
     eo = run_lines(impl, el, "e2e", timeout=3000)
     e2e_out, swap_seen = {}, {}
@@ -383,10 +389,12 @@ def run(ctx):
         if not b.startswith("{"):
             mism.append(("e2e run failed", a, b[:500], "")); continue
         j = json.loads(b)
-        evaluations += j["probes"] + j["files_scanned"]
+        evaluations += j["probes"] + j["files_scanned"] + j.get("loader_reads", 0)
         cov["e2e_files_scanned"] = cov.get("e2e_files_scanned", 0) + j["files_scanned"]
         cov["e2e_files_tampered"] = cov.get("e2e_files_tampered", 0) + j["files_tampered"]
         cov["e2e_tamper_probes"] = cov.get("e2e_tamper_probes", 0) + j["probes"]
+        cov["e2e_loader_reads_on_tampered_files"] = cov.get("e2e_loader_reads_on_tampered_files", 0) + j.get("loader_reads", 0)
+        cov["e2e_loader_paths"] = sorted({x.split(":")[0] for x in j.get("loader_paths", [])})
         for k, v in j["outcomes"].items(): e2e_out[k] = e2e_out.get(k, 0) + v
         if not j["check_clean_before_tamper"]:
             mism.append(("e2e repository not clean before tampering", a, "", ""))
@@ -396,11 +404,17 @@ def run(ctx):
             viol.append(("plaintext in storage: " + s, {"cases": [a]}, s, None))
         for v in j["tamper_violations"]:
             swap = v["probe"].startswith("swap")
+            kind = {"t": "truncation to %s bytes" % v["probe"][1:], "x": "extension by %s bytes" % v["probe"][1:], "f": "bit flip", "s": "substitution by a file of the same type"}[v["probe"][0]]
+            read = v["read"].split(":")[0]
             sig = None
             if swap and v["outcome"] == "diff" and v["type"] == "data":
                 sig = SIG_PACK      # snapshot / index substitution is repaired: a plain violation now
-            viol.append(("tampered %s file: %s of %s returned %s content instead of an error (read: %s)" % (v["type"], v["probe"].split(":")[0], v["id"][:8], "different" if v["outcome"] == "diff" else "the original", v["read"]),
-                         {"cases": [a], "detail": v}, json.dumps(v), sig))
+            if read == "latest" and v["type"] == "snapshots" and v["outcome"] == "diff":
+                sig = SIG_LATEST
+            # the message names file type, kind of tampering and read path (stable across runs)
+            viol.append(("tampered %s file (%s): the read path `%s` returned %s instead of an error" % (v["type"], kind if v["probe"][0] != "t" or v["probe"] in ("t0", "t1", "t31", "t32") else "truncation", read,
+                          "a DIFFERENT result" if v["outcome"] == "diff" else "the original content"),
+                         {"cases": [a], "detail": v}, json.dumps(v)[:600], sig))
         sw = j.get("swap_snapshots")
         if sw:
             swap_seen[sw["get_file"]] = swap_seen.get(sw["get_file"], 0) + 1
